@@ -12,6 +12,51 @@ from common import *
 from props import c19
 
 TORN_CLASSES = ["zero", "envelope", "inner", "last"]
+CFG = {"replayIsComplete": True, "atomicWrite": False}     # probed per run (see probe)
+
+
+class ProcessDied(BaseException):
+    """Raised from inside the adapter's file write: everything above it on the stack is the dying process."""
+
+
+def cut_length(content, cls):
+    inner = content.find('"state": "')
+    return {"zero": 0, "envelope": max(1, min(inner, 5)), "inner": (inner + len(content)) // 2 if inner >= 0 else len(content) // 2,
+            "last": len(content) - 1}[cls]
+
+
+class WriteCrash:
+    """Harness-side hook: the adapter module's `open` is shadowed so that the next write of a state file stops after a
+    prefix of the content (class `cls`) has reached the disk, and the process "dies" there (ProcessDied unwinds the
+    request; the server object is discarded by the caller)."""
+    def __init__(self, cls):
+        self.cls, self.fired = cls, False
+    def __enter__(self):
+        import builtins
+        import BPTK_Py.externalstateadapter.externalStateAdapter as esa
+        hook = self
+        def fake_open(file, mode="r", *a, **k):
+            f = builtins.open(file, mode, *a, **k)
+            if "w" not in mode:
+                return f
+            class W:
+                def write(self, text):
+                    f.write(text[:cut_length(text, hook.cls)]); f.flush(); f.close()
+                    hook.fired = True
+                    raise ProcessDied()
+                def close(self): f.close()
+                def flush(self): pass
+                def fileno(self): return f.fileno()
+                def __enter__(self): return self
+                def __exit__(self, *a): f.close(); return False
+            return W()
+        esa.open = fake_open
+        return self
+    def __exit__(self, *a):
+        import BPTK_Py.externalstateadapter.externalStateAdapter as esa
+        if "open" in esa.__dict__:
+            del esa.open
+        return False
 
 
 # ------------------------------------------------------------------ running a history on the real server
@@ -74,16 +119,14 @@ class Run:
             return ("invalid", None)
         return (f"http-{r.status_code}", txt[:200])
 
-    def tear(self, mid, cls):
-        fn = os.path.join(self.path, self.ids[mid] + ".json")
-        if not os.path.exists(fn):
-            return
-        content = open(fn).read()
-        inner = content.find('"state": "')
-        n = {"zero": 0, "envelope": max(1, min(inner, 5)), "inner": (inner + len(content)) // 2 if inner >= 0 else len(content) // 2,
-             "last": len(content) - 1}[cls]
-        with open(fn, "w") as f:
-            f.write(content[:n])
+    def torn_step(self, mid, st, cls):
+        """run-step during which the process dies inside the state write (after a prefix of class `cls`)"""
+        with WriteCrash(cls) as hook:
+            try:
+                self.step(mid, st)
+            except ProcessDied:
+                pass
+        return hook.fired
 
     def file_state(self, mid):
         iid = self.ids.get(mid)
@@ -96,7 +139,160 @@ class Run:
         return f"ok:step={c19.T(st.state['step'])};n={len(st.state['settings_log'])}"
 
 
-def run_ops(hist, ops, base, tag):
+SERVER_SCRIPT = r'''
+import sys, os, json, time, builtins
+sys.path.insert(0, "/verif/harness")
+from common import *
+quiet_bptk_logging()
+import logging
+logging.getLogger("werkzeug").setLevel(logging.ERROR)
+from props import c19
+spec, compress, path, port, arm, marker = json.loads(sys.argv[1]), sys.argv[2] == "1", sys.argv[3], int(sys.argv[4]), sys.argv[5], sys.argv[6]
+import BPTK_Py.externalstateadapter.externalStateAdapter as esa
+def cut_length(content, cls):
+    inner = content.find('"state": "')
+    return {"zero": 0, "envelope": max(1, min(inner, 5)), "inner": (inner + len(content)) // 2 if inner >= 0 else len(content) // 2,
+            "last": len(content) - 1}[cls]
+def slow_open(file, mode="r", *a, **k):            # harness-side hook: a write that is caught half way by kill -9
+    f = builtins.open(file, mode, *a, **k)
+    if "w" not in mode or not os.path.exists(arm):
+        return f
+    cls = builtins.open(arm).read().strip()
+    class W:
+        def write(self, text):
+            f.write(text[:cut_length(text, cls)]); f.flush(); os.fsync(f.fileno())
+            builtins.open(marker, "w").close()
+            time.sleep(300)
+        def close(self): f.close()
+        def flush(self): pass
+        def fileno(self): return f.fileno()
+        def __enter__(self): return self
+        def __exit__(self, *a): f.close(); return False
+    return W()
+esa.open = slow_open
+from BPTK_Py import FileAdapter
+from BPTK_Py.server import BptkServer
+import contextlib, io
+app = BptkServer("c20p", c19.make_factory(spec["start"], spec["stop"], spec["dt"]), external_state_adapter=FileAdapter(compress, path))
+app.logger.disabled = True
+from werkzeug.serving import make_server
+srv = make_server("127.0.0.1", port, app, threaded=False)
+print("READY", flush=True)
+srv.serve_forever()
+'''
+
+
+PROC_STATS = {"sigkill": 0, "killed_in_write": 0, "write_not_reached": 0, "variants": 0, "histories": 0}
+
+
+class ProcRun(Run):
+    """The same interface as `Run`, but the server is a real process (werkzeug on a local port) that is killed with
+    SIGKILL -- between two requests, or while it is inside the write of a state file (the slow-write hook of the
+    server script signals through a marker file that a prefix of the content is on disk)."""
+    def __init__(self, spec, compress, path):
+        self.proc = None
+        self.script = path + "-server.py"
+        os.makedirs(os.path.dirname(path), exist_ok=True)
+        with open(self.script, "w") as f:
+            f.write(SERVER_SCRIPT)
+        self.arm, self.marker = path + "-arm", path + "-marker"
+        Run.__init__(self, spec, compress, path)
+
+    def boot(self):
+        import socket, subprocess, select
+        s = socket.socket(); s.bind(("127.0.0.1", 0)); self.port = s.getsockname()[1]; s.close()
+        for fn in (self.arm, self.marker):
+            if os.path.exists(fn):
+                os.remove(fn)
+        self.proc = subprocess.Popen(["/venv/bin/python", self.script, json.dumps(self.spec), "1" if self.compress else "0", self.path,
+                                      str(self.port), self.arm, self.marker], stdout=subprocess.PIPE, stderr=subprocess.PIPE, text=True,
+                                     cwd=os.path.dirname(self.path), env=dict(os.environ))
+        t0 = time.time()
+        line = ""
+        while time.time() - t0 < 120:
+            r, _, _ = select.select([self.proc.stdout], [], [], 1.0)
+            if r:
+                line = self.proc.stdout.readline()
+                if "READY" in line or line == "":
+                    break
+            if self.proc.poll() is not None:
+                break
+        if "READY" in line:
+            self.srv = self                       # "there is a server"
+        else:
+            self.kill()
+            err = self.proc.stderr.read()[-600:] if self.proc.stderr else ""
+            self.ctor_error = "server process did not come up: " + err
+            self.srv = None
+
+    def kill(self):
+        import signal
+        if self.proc is not None and self.proc.poll() is None:
+            os.kill(self.proc.pid, signal.SIGKILL)
+            self.proc.wait()
+
+    def crash(self):
+        PROC_STATS["sigkill"] += 1
+        self.kill()
+        self.boot()
+
+    def close(self):
+        self.kill()
+        for fn in (self.script, self.arm, self.marker):
+            if os.path.exists(fn):
+                os.remove(fn)
+        shutil.rmtree(self.path, ignore_errors=True)
+
+    def http(self, url, body="nobody", timeout=60):
+        import urllib.request, urllib.error
+        data = b"" if body == "nobody" else json.dumps(body).encode()
+        rq = urllib.request.Request(f"http://127.0.0.1:{self.port}{url}", data=data, method="POST")
+        if body != "nobody":
+            rq.add_header("Content-Type", "application/json")
+        try:
+            with urllib.request.urlopen(rq, timeout=timeout) as r:
+                return r.status, r.read().decode()
+        except urllib.error.HTTPError as e:
+            return e.code, e.read().decode(errors="replace")
+
+    def start(self, mid, inst):
+        _, txt = self.http("/start-instance")
+        iid = json.loads(txt)["instance_uuid"]
+        self.ids[mid] = iid
+        self.http(f"/{iid}/begin-session", {"scenario_managers": inst["sms"], "scenarios": inst["scs"], "equations": inst["eqs"], "settings": {}})
+
+    def step(self, mid, st):
+        iid = self.ids.get(mid, "no-such-instance")
+        code, txt = self.http(f"/{iid}/run-step", "nobody" if st["k"] == "nobody" else {"settings": st.get("settings", {})})
+        if code == 200:
+            data = json.loads(txt)
+            return ("stopped", data) if "msg" in data else ("ok", data)
+        if "expecting a valid instance id" in txt:
+            return ("invalid", None)
+        return (f"http-{code}", txt[:200])
+
+    def torn_step(self, mid, st, cls):
+        import threading
+        with open(self.arm, "w") as f:
+            f.write(cls)
+        res = {}
+        def go():
+            try:
+                res["r"] = self.step(mid, st)
+            except Exception as e:                 # the connection dies with the process
+                res["e"] = repr(e)
+        th = threading.Thread(target=go, daemon=True); th.start()
+        t0 = time.time()
+        while time.time() - t0 < 60 and not os.path.exists(self.marker) and th.is_alive():
+            time.sleep(0.02)
+        fired = os.path.exists(self.marker)
+        PROC_STATS["killed_in_write" if fired else "write_not_reached"] += 1
+        self.kill()                                # SIGKILL while the process sleeps inside write()
+        th.join(10)
+        return fired
+
+
+def run_ops(hist, ops, base, tag, runner=None):
     """ops: list of ('start', mid) ('step', mid, st) ('crash',) ('torn', mid, st, cls).
     Returns per op (kind, body), per op file states of all instances, constructor error."""
     import contextlib, io
@@ -104,7 +300,7 @@ def run_ops(hist, ops, base, tag):
     out, files = [], []
     with contextlib.redirect_stdout(io.StringIO()):
         try:
-            run = Run(hist["spec"], hist["compress"], os.path.join(base, "state-" + tag))
+            run = (runner or Run)(hist["spec"], hist["compress"], os.path.join(base, "state-" + tag))
             for op in ops:
                 if run.srv is None:
                     out.append(("ctor-failed", run.ctor_error)); files.append(None)
@@ -116,9 +312,7 @@ def run_ops(hist, ops, base, tag):
                 elif op[0] == "crash":
                     run.crash(); out.append(("none", None))
                 elif op[0] == "torn":
-                    kind, _ = run.step(op[1], op[2])
-                    if kind != "invalid":
-                        run.tear(op[1], op[3])
+                    run.torn_step(op[1], op[2], op[3])
                     run.crash(); out.append(("none", None))
                 files.append({mid: run.file_state(mid) for mid in run.ids} if run.srv is not None else None)
         finally:
@@ -129,7 +323,7 @@ def run_ops(hist, ops, base, tag):
 
 def model_lines(hist, ops):
     spec = hist["spec"]
-    req = ["new"]
+    req = ["new", f"cfg {int(CFG['replayIsComplete'])} {int(CFG['atomicWrite'])}"]
     for op in ops:
         if op[0] == "start":
             req.append(f"start {op[1]} {c19.T(spec['start'])} {c19.T(spec['dt'])} {c19.T(spec['stop'])} {op[1]}")
@@ -145,25 +339,49 @@ def model_lines(hist, ops):
 
 
 def base_ops(hist):
-    """interleave the instances' steps round-robin after starting all of them"""
-    ops = [("start", m) for m in range(len(hist["instances"]))]
+    """the requests of all instances in one sequence: `order` (a list of instance numbers, one per step, any
+    interleaving) when given, else round-robin; an instance is started right before its first step or, with
+    `late_start` false, all instances first"""
     pending = [list(i["steps"]) for i in hist["instances"]]
-    while any(pending):
-        for m, p in enumerate(pending):
-            if p:
-                ops.append(("step", m, p.pop(0)))
+    order = hist.get("order")
+    if order is None:
+        order = []
+        rest = [len(p) for p in pending]
+        while any(rest):
+            for m in range(len(rest)):
+                if rest[m]:
+                    order.append(m); rest[m] -= 1
+    ops, started = [], set()
+    if not hist.get("late_start"):
+        ops = [("start", m) for m in range(len(hist["instances"]))]
+        started = set(range(len(hist["instances"])))
+    for m in order:
+        if m not in started:
+            ops.append(("start", m)); started.add(m)
+        if pending[m]:
+            ops.append(("step", m, pending[m].pop(0)))
     return ops
 
 
 def variants(hist):
+    """crash between any two requests (every position k), crash inside the state write of every stepping request (every
+    truncation class), and -- `multi` -- crashes at several positions of one run.  With an atomic state write the
+    request that died is retried by the client after the restart (it was never answered)."""
     ops = base_ops(hist)
     out = []
     for k in range(len(ops) + 1):
         out.append((f"crash@{k}", ops[:k] + [("crash",)] + ops[k:]))
-    for k, op in enumerate(ops):
-        if op[0] == "step":
-            for cls in TORN_CLASSES:
-                out.append((f"torn@{k}:{cls}", ops[:k] + [("torn", op[1], op[2], cls)] + ops[k + 1:]))
+    if hist.get("torn", True):
+        for k, op in enumerate(ops):
+            if op[0] == "step":
+                for cls in TORN_CLASSES:
+                    retry = [op] if CFG["atomicWrite"] else []
+                    out.append((f"torn@{k}:{cls}", ops[:k] + [("torn", op[1], op[2], cls)] + retry + ops[k + 1:]))
+    for ks in hist.get("multi", []):
+        vops = list(ops)
+        for k in sorted(set(ks), reverse=True):
+            vops = vops[:k] + [("crash",)] + vops[k:]
+        out.append(("crash@" + "+".join(map(str, sorted(set(ks)))), vops))
     return ops, out
 
 
@@ -176,13 +394,13 @@ def present(body):
     return {(sm, sc, eq) for sm, a in body.items() for sc, b in a.items() for eq in b}
 
 
-def check_variant(hist, name, ops, un_by_step, base, model_out):
+def check_variant(hist, name, ops, un_by_step, base, model_out, runner=None):
     """-> list of (key, text).  un_by_step: answers of the uninterrupted run per (mid, n-th step of mid)."""
-    got, files, ctor = run_ops(hist, ops, base, "c")
+    got, files, ctor = run_ops(hist, ops, base, "c", runner)
     viol = []
     counters, lost, externalised = {}, set(), set()
     exp_lines, real_lines = [], []
-    mi = 1                                            # index into model_out (after "new")
+    mi = 2                                            # index into model_out (after "new", "cfg")
     for oi, op in enumerate(ops):
         kind, body = got[oi]
         m_reply = model_out[mi]; mi += 1
@@ -210,6 +428,9 @@ def check_variant(hist, name, ops, un_by_step, base, model_out):
                 viol.append(("equation-missing", f"{name}: op {oi}: result lacks {sorted(requested(hist, mid) - present(body))}"))
             if kind in ("ok", "stopped"):
                 externalised.add(mid)
+        elif op[0] == "torn" and CFG["atomicWrite"]:
+            # the previous state file is intact: the request is lost as a whole (and retried), no instance is
+            lost |= {m for m in range(len(hist["instances"])) if m not in externalised and any(o[0] == "start" and o[1] == m for o in ops[:oi])}
         elif op[0] == "torn":
             mid = op[1]
             counters[mid] = counters.get(mid, 0) + 1
@@ -225,15 +446,18 @@ def check_variant(hist, name, ops, un_by_step, base, model_out):
                 viol.append(("correspondence-files", f"{name}: after op {oi} {op[:2]} files are {real_f}, model says {m_files}"))
         if viol:
             break
-    if not viol and exp_lines != real_lines:
+    if not viol and exp_lines != real_lines and CFG["replayIsComplete"]:
         i = next(i for i, (a, b) in enumerate(zip(exp_lines, real_lines)) if a != b)
         viol.append(("correspondence-answers", f"{name}: step request #{i}: (crashed kind, uninterrupted kind, equal) real {real_lines[i]} model {exp_lines[i]}"))
     return viol
 
 
-def run_history(hist, base, only=None):
-    """-> (number of variants run, violations [(key, text, variant name)])"""
+def run_history(hist, base, only=None, runner=None, pick=None):
+    """-> (number of variants run, violations [(key, text, variant name)]).  `runner=ProcRun`: the crashed runs are real
+    processes killed with SIGKILL (the uninterrupted run stays in process); `pick`: a filter on variant names."""
     ops, vs = variants(hist)
+    if pick is not None:
+        vs = [v for v in vs if pick(v[0])]
     un, _, _ = run_ops(hist, ops, base, "u")
     un_by_step, counters = {}, {}
     viol = []
@@ -254,17 +478,20 @@ def run_history(hist, base, only=None):
         req += q
     model = drive("C20", req)
     for (name, vops), (a, b) in zip(vs, spans):
-        v = check_variant(hist, name, vops, un_by_step, base, model[a:b])
-        viol += [(k, t, name) for k, t in v]
+        v = check_variant(hist, name, vops, un_by_step, base, model[a:b], runner)
+        viol += [(k, t, name + ("/process" if runner is not None else "")) for k, t in v]
     return len(vs), viol
 
 
 # ------------------------------------------------------------------ generation
 def gen_history(rng, nmax):
-    start, dt = rng.choice(c19.STARTS), rng.choice(c19.DTS)
+    if rng.chance(1, 4):
+        start, dt = rng.choice(c19.STARTS10), rng.choice(c19.DTS10)
+    else:
+        start, dt = rng.choice(c19.STARTS), rng.choice(c19.DTS)
     ninst = rng.choice([1, 1, 2, 3])
     horizon = rng.choice([3, 12, 12, 12])
-    spec = {"start": start, "dt": dt, "stop": start + dt * horizon}
+    spec = {"start": start, "dt": dt, "stop": round(start + dt * horizon, 6)}
     insts, budget = [], nmax
     for m in range(ninst):
         sms = rng.choice([["smA"], ["smA", "smB"]])
@@ -282,7 +509,52 @@ def gen_history(rng, nmax):
             else:
                 steps.append({"k": "nobody"})
         insts.append({"sms": sms, "scs": scs, "eqs": eqs, "steps": steps})
-    return {"spec": spec, "compress": rng.chance(1, 2), "instances": insts}
+    hist = {"spec": spec, "compress": rng.chance(1, 2), "instances": insts}
+    if ninst > 1 and rng.chance(2, 3):                   # any interleaving of the instances' requests, late starts
+        hist["order"] = gen_order(rng, hist)
+        hist["late_start"] = rng.chance(1, 2)
+    nops = len(base_ops(hist))
+    hist["multi"] = [[rng.below(nops + 1) for _ in range(rng.range(2, 3))] for _ in range(2)]   # several crashes in one run
+    return hist
+
+
+def gen_order(rng, hist):
+    """a random interleaving of the instances' steps"""
+    bag = [m for m, i in enumerate(hist["instances"]) for _ in i["steps"]]
+    out = []
+    while bag:
+        out.append(bag.pop(rng.below(len(bag))))
+    return out
+
+
+C5 = {"k": "set", "settings": {"smA": {"a": {"constants": {"c": 5.0}}}}}
+K3 = {"k": "set", "settings": {"smA": {"a": {"constants": {"k": 3.0}}}}}
+
+
+def late_settings_histories(quick):
+    """Steps WITHOUT settings first, settings later: with the crash points exhaustive, every history has the crash
+    points "after un-logged-settings steps, before the first settings" (the incomplete-replay defect shows only there).
+    All sequences over {settings, {}} up to length L for one instance (crash points only), and two-instance versions."""
+    import itertools
+    L = 3 if quick else 5
+    out = []
+    for n in range(2, L + 1):
+        for seq in itertools.product((0, 1), repeat=n):
+            if 1 not in seq or seq[0] == 1 and n > 2:
+                continue                                   # at least one settings step; leading quiet step (or the 2-step ones)
+            steps = [copy.deepcopy(C5 if x else {"k": "empty"}) for x in seq]
+            out.append({"spec": {"start": 1.0, "dt": 0.5, "stop": 10.0}, "compress": n % 2 == 0, "torn": False,
+                        "instances": [{"sms": ["smA"], "scs": ["a"], "eqs": ["s", "c", "g"], "steps": steps}]})
+    out.append({"spec": {"start": 0.0, "dt": 0.25, "stop": 10.0}, "compress": False, "torn": False, "late_start": True,
+                "order": [0, 0, 1, 0, 1, 1, 0],
+                "instances": [{"sms": ["smA"], "scs": ["a"], "eqs": ["s", "g"], "steps": [{"k": "nobody"}, {"k": "empty"}, copy.deepcopy(K3), copy.deepcopy(C5)]},
+                              {"sms": ["smA"], "scs": ["a", "b"], "eqs": ["s"], "steps": [{"k": "empty"}, {"k": "empty"}, copy.deepcopy(C5)]}]})
+    return out
+
+
+WITNESS_LATE = {"spec": {"start": 1.0, "dt": 1.0, "stop": 10.0}, "compress": False, "torn": False,
+                "instances": [{"sms": ["smA"], "scs": ["a"], "eqs": ["s", "c"],
+                               "steps": [{"k": "empty"}, {"k": "empty"}, copy.deepcopy(C5)]}]}
 
 
 WITNESS = {"spec": {"start": 1.0, "dt": 1.0, "stop": 10.0}, "compress": False,
@@ -320,18 +592,57 @@ def probe(base):
     facts = {}
     _, v = run_history(WITNESS, base, only="crash@5")
     facts["restoreReplaysSettings"] = not any(k == "continuation-differs" for k, _, _ in v)
+    CFG["atomicWrite"] = False
+    CFG["replayIsComplete"] = True
     _, v = run_history(WITNESS, base, only="torn@4:inner")
     facts["loadSkipsBadFiles"] = not any(k == "constructor-fails-on-damaged-file" for k, _, _ in v)
+    # wave 2: steps without settings before the crash, settings after the restart (start, step {}, step {}, CRASH, step c=5)
+    _, v = run_history(WITNESS_LATE, base, only="crash@3")
+    facts["replayIsComplete"] = facts["restoreReplaysSettings"] and not any(k == "continuation-differs" for k, _, _ in v)
+    facts["atomicWrite"] = probe_atomic(base)
+    CFG["replayIsComplete"], CFG["atomicWrite"] = facts["replayIsComplete"], facts["atomicWrite"]
     return facts
 
 
+def probe_atomic(base):
+    """a state write that dies half way: is the previous state file still readable?"""
+    import contextlib, io
+    with contextlib.redirect_stdout(io.StringIO()):
+        run = Run(WITNESS["spec"], False, os.path.join(base, "state-atomic"))
+        try:
+            run.start(0, WITNESS["instances"][0])
+            run.step(0, {"k": "empty"})
+            before = run.file_state(0)
+            run.torn_step(0, {"k": "empty"}, "inner")
+            return before.startswith("ok") and run.file_state(0) == before
+        except Exception:
+            return False
+        finally:
+            run.close()
+
+
 def gen_lean(facts):
-    return ("import Bptk.Props.C20\n/-! GENERATED by harness/props/c20.py from /repo on every run — do not edit. -/\n"
-            "namespace Bptk.C20.Gen\n"
-            f"/-- probed on this tree: a restored session replays its logged settings: {facts['restoreReplaysSettings']}; "
-            f"load_state skips unreadable files: {facts['loadSkipsBadFiles']} -/\n"
-            "theorem holds {σ ρ : Type} (d : Dyn σ ρ) : C20_full d := C20_full_holds d\n#print axioms holds\n"
-            "end Bptk.C20.Gen\n")
+    b = lambda x: "true" if x else "false"
+    out = ("import Bptk.Props.C20\n/-! GENERATED by harness/props/c20.py from /repo on every run — do not edit. -/\n"
+           "namespace Bptk.C20.Gen\n"
+           f"/-- probed on this tree: a restored session replays its logged settings: {facts['restoreReplaysSettings']}; "
+           f"load_state skips unreadable files: {facts['loadSkipsBadFiles']}; the replay covers every logged step (steps without "
+           f"settings before the crash, settings after the restart): {facts['replayIsComplete']}; a state write that dies half way "
+           f"leaves the previous state file readable: {facts['atomicWrite']} -/\n"
+           f"def cfg : Cfg := {{ replayIsComplete := {b(facts['replayIsComplete'])}, atomicWrite := {b(facts['atomicWrite'])} }}\n"
+           "theorem holds_wave1 {σ ρ : Type} (d : Dyn σ ρ) : C20_full d := C20_full_holds d\n#print axioms holds_wave1\n")
+    if facts["replayIsComplete"]:
+        out += "theorem holds {σ ρ : Type} (d : Dyn σ ρ) : C20_full_cfg cfg d := C20_full_of_good cfg (by decide) d\n#print axioms holds\n"
+        if facts["atomicWrite"]:
+            out += ("theorem no_instance_lost_in_write {σ ρ : Type} (d : Dyn σ ρ) : NoLossInWrite cfg d := "
+                    "noLoss_of_atomic cfg (by decide) (by decide) d\n#print axioms no_instance_lost_in_write\n")
+    else:
+        out += "theorem violated : ¬ C20_full_cfg cfg lazyDyn := C20_witness_partial_replay cfg (by decide)\n#print axioms violated\n"
+    if not facts["atomicWrite"]:
+        out += ("/-- the write is in place: a crash inside it costs the instance being written (allowed by the statement) -/\n"
+                "theorem write_can_lose_the_instance : ¬ NoLossInWrite cfg histDyn := noLoss_witness cfg (by decide)\n"
+                "#print axioms write_can_lose_the_instance\n")
+    return out + "end Bptk.C20.Gen\n"
 
 
 # ------------------------------------------------------------------ the check
@@ -357,23 +668,33 @@ def _run(chk, base):
         "C19 round trip (a readable file restores the session that was saved) — proved and checked in C19",
     ]
     chk.assumptions = ["models are deterministic and total (no random(), no failing equation); a model's factory builds a fresh model per instance",
-                       "instance ids are never reused (uuid1)", "crash = process state discarded between two requests or inside FileAdapter._save_instance; "
-                       "real process death / fsync ordering is not exhibited", "SD sessions; start/dt on the dyadic lattice (see C19)"]
+                       "instance ids are never reused (uuid1)", "crash = process state discarded between two requests or inside FileAdapter._save_instance (the write is "
+                       "cut by a harness-side hook after a prefix of the content); thorough tier: real server processes killed with SIGKILL at the same "
+                       "points; fsync/rename ordering of the file system is trusted", "SD sessions; start/dt on the dyadic or the decimal lattice (see C19)"]
     nmax = 6 if chk.quick else 12
     rng = chk.rng.fork("c20-hist")
-    hists = [WITNESS] + [gen_history(rng, nmax) for _ in range(10 if chk.quick else 40)]
+    hists = [WITNESS, WITNESS_LATE] + late_settings_histories(chk.quick) + [gen_history(rng, nmax) for _ in range(8 if chk.quick else 40)]
     chk.cov["rule"] = (f"per generated history (1-3 instances, <= {nmax} steps, settings / {{}} / no body, both adapter modes): one uninterrupted run, then one "
                        "run per crash point k in 0..N (exhaustive) and one per stepping request x torn-write class {0, inside envelope, inside inner state "
-                       "string, length-1}; a case = (history, variant); non-trivial = the history changes a constant before the crash point")
+                       "string, length-1} (with an atomic state write the request that died is retried), two runs with crashes at several positions; "
+                       "histories: all sequences over {settings, {}} (quiet steps first, settings later) for one instance, random 1-3 instances with any "
+                       "interleaving of their requests and late starts; thorough: three histories again with real server processes and SIGKILL; "
+                       "a case = (history, variant); non-trivial = the history changes a constant")
     viol_by_key = {}
     total = 0
-    dist = {"histories": 0, "crash_variants": 0, "torn_variants": 0, "instances": {1: 0, 2: 0, 3: 0}, "compressed": 0}
+    dist = {"histories": 0, "crash_variants": 0, "torn_variants": 0, "multi_crash_variants": 0, "instances": {1: 0, 2: 0, 3: 0}, "compressed": 0,
+            "random_interleavings": 0, "quiet_steps_then_settings": 0, "non_dyadic": 0}
     for h in hists:
         n, viol = run_history(h, base)
         total += n
         ops, vs = variants(h)
         dist["histories"] += 1
-        dist["crash_variants"] += sum(1 for v in vs if v[0].startswith("crash"))
+        dist["crash_variants"] += sum(1 for v in vs if v[0].startswith("crash") and "+" not in v[0])
+        dist["multi_crash_variants"] += sum(1 for v in vs if "+" in v[0])
+        dist["random_interleavings"] += int("order" in h)
+        dist["non_dyadic"] += int(h["spec"]["dt"] in c19.DTS10)
+        dist["quiet_steps_then_settings"] += int(any(i["steps"] and i["steps"][0]["k"] != "set" and any(s_["k"] == "set" for s_ in i["steps"][1:])
+                                                     for i in h["instances"]))
         dist["torn_variants"] += sum(1 for v in vs if v[0].startswith("torn"))
         dist["instances"][len(h["instances"])] += 1
         dist["compressed"] += int(h["compress"])
@@ -387,13 +708,33 @@ def _run(chk, base):
         if time.time() - chk.t0 > (75 if chk.quick else 800):
             chk.notes["stopped_early_after_histories"] = dist["histories"]
             break
+    if not chk.quick:
+        # real process death: the crashed runs are server processes killed with SIGKILL between two requests and inside a
+        # state write (slow-write hook on the harness side); restart = a new process on the same directory
+        for k in PROC_STATS:
+            PROC_STATS[k] = 0
+        t_proc = time.time()
+        two = next((h for h in hists if len(h["instances"]) >= 2 and "order" in h), hists[-1])
+        for h in [WITNESS, WITNESS_LATE, two]:
+            if time.time() - t_proc > 300:
+                break
+            nops = len(base_ops(h))
+            pick = lambda nm: "+" not in nm and (nm.startswith("crash@") or nm.endswith(":inner") or nm.endswith(":zero"))
+            h2 = dict(h, torn=True, multi=[])
+            n, viol = run_history(h2, base, runner=ProcRun, pick=pick)
+            PROC_STATS["variants"] += n; PROC_STATS["histories"] += 1
+            total += n
+            for k, t, name in viol:
+                viol_by_key.setdefault(k, (h2, t, name))
+        chk.cov["process_death"] = dict(PROC_STATS, wall_s=round(time.time() - t_proc, 1))
     chk.cov["input_distribution"] = dist
     chk.cov["traces_validated_against_impl"] = total
     chk.cov["exhaustive"] = "crash point and torn-write class exhaustive per history"
     for key, (h, text, name) in list(viol_by_key.items())[:5]:
         found = not key.startswith("correspondence")
-        small = shrink(h, key, base) if found and time.time() - chk.t0 < (85 if chk.quick else 850) else h
-        v2 = [v for v in run_history(small, base)[1] if v[0] == key]
+        proc = name.endswith("/process")
+        small = shrink(h, key, base) if found and not proc and time.time() - chk.t0 < (85 if chk.quick else 850) else h
+        v2 = [v for v in run_history(small, base)[1] if v[0] == key] if not proc else []
         t2, n2 = (v2[0][1], v2[0][2]) if v2 else (text, name)
         chk.add_finding(key if found else "correspondence", t2, {"history": small, "variant": n2, "key": key}, found_input=found)
     if not ok:
@@ -409,7 +750,10 @@ def replay(path):
         return 1
     base = scratch_dir("bptkverif-c20-")
     try:
-        n, viol = run_history(r["history"], base, only=r.get("variant"))
+        var = r.get("variant")
+        proc = bool(var) and var.endswith("/process")
+        probe(base)                                       # sets the mechanism facts the variants depend on
+        n, viol = run_history(r["history"], base, only=var[:-len("/process")] if proc else var, runner=ProcRun if proc else None)
     finally:
         shutil.rmtree(base, ignore_errors=True)
     print("history:", json.dumps(r["history"]))
